@@ -454,6 +454,9 @@ func (fc *FontConfigurationGotext) wrapWordBreak(text []rune, style *TextStyle, 
 	config := shaping.WrapConfig{
 		Direction:   outputs[0].Direction, // overall direction of the text, deduced from the first runes
 		BreakPolicy: shaping.Never,        // mimic the default pango behavior
+		// a text that ends with a space keeps the advance of that space (as with pango) :
+		// it may be followed by another inline box on the same line
+		DisableTrailingWhitespaceTrim: true,
 	}
 	if allowWordBreak {
 		config.BreakPolicy = shaping.Always
